@@ -559,8 +559,8 @@ func (c04) Run(t TestingT, scn json.RawMessage, tape *Tape) *Outcome {
 	want := deepCopy(ci.Baseline)
 	type failure struct {
 		path, kind, target string
-		deferred          bool
-		needErr           bool
+		deferred           bool
+		needErr            bool
 	}
 	var fails []failure
 	nonTrivial := false
